@@ -36,7 +36,8 @@ PROBE = 'import os\nx = int(0)\nprint("")\nos.path.exists("f")\n'
 PROBE_CODES = [("FURB", 123), ("FURB", 105), ("FURB", 141)]
 FUEL = 4096
 MAX_CLI_FILES = 48
-IGNORE_ATOMS = ["FURB123", "123", "105", "FURB141", "#builtin", "#readability", "#pathlib", "#nosuch", "XYZ007", "FURB999"]
+# XYZ123 / ABCD105 / XYZ141: the NUMBER of a built-in check under another prefix (an amend entry names prefix AND number)
+IGNORE_ATOMS = ["FURB123", "123", "105", "FURB141", "#builtin", "#readability", "#pathlib", "#nosuch", "XYZ007", "FURB999", "XYZ123", "ABCD105", "XYZ141"]
 
 
 # ------------------------------------------------------------------------------------------
@@ -447,6 +448,8 @@ def error_classes() -> list[Any]:
             out.append(e)
     out.sort(key=lambda e: e.code)
     out.append(type("ErrorInfoXYZ7", (Error,), {"prefix": "XYZ", "code": 7, "categories": ("zz", "builtin"), "name": "probe"}))
+    # a plugin check that shares its NUMBER with a built-in one
+    out.append(type("ErrorInfoXYZ123", (Error,), {"prefix": "XYZ", "code": 123, "categories": ("zz",), "name": "probe123"}))
     return out
 
 
